@@ -167,6 +167,144 @@ func runIndentPair(c *Ctx, r *Reporter) {
 	if total == 0 {
 		r.Undecided("no function changes indentLevel")
 	}
+	// any other scalar state of the formatter: a function that can re-enter itself through the formatter (the nested
+	// statement lists) and writes such a field must put back the value it found, on every path to return — otherwise the
+	// state of the inner list is what the outer list continues with. The unchanged tree has no such field (a note says
+	// so); the scripted mutant formatter-state-leak is the standing positive example.
+	stateStores := 0
+	for _, fd := range order {
+		sf := p.SSAFunc(fd.Obj)
+		byField := map[string][]*ssa.Store{}
+		var names []string
+		hasDefer := false
+		for _, b := range sf.Blocks {
+			for _, ins := range b.Instrs {
+				if _, ok := ins.(*ssa.Defer); ok {
+					hasDefer = true
+				}
+				st, ok := ins.(*ssa.Store)
+				if !ok {
+					continue
+				}
+				fa, ok := st.Addr.(*ssa.FieldAddr)
+				if !ok {
+					continue
+				}
+				named, name := fieldAddrInfo(fa)
+				if named == nil || named.Obj().Name() != "formatting" || named.Obj().Pkg() != pkg.Types || name == "indentLevel" {
+					continue
+				}
+				if _, basic := st.Val.Type().Underlying().(*types.Basic); !basic {
+					continue
+				}
+				if byField[name] == nil {
+					names = append(names, name)
+				}
+				byField[name] = append(byField[name], st)
+			}
+		}
+		if len(names) == 0 {
+			continue
+		}
+		sort.Strings(names)
+		// can the function re-enter itself?
+		seen := map[*ssa.Function]bool{}
+		var reach func(f *ssa.Function) bool
+		reach = func(f *ssa.Function) bool {
+			if f == nil || seen[f] || f.Pkg != sf.Pkg {
+				return false
+			}
+			seen[f] = true
+			for _, b := range f.Blocks {
+				for _, ins := range b.Instrs {
+					var callee *ssa.Function
+					switch ins := ins.(type) {
+					case *ssa.Call:
+						callee = ins.Call.StaticCallee()
+					case *ssa.Defer:
+						callee = ins.Call.StaticCallee()
+					case *ssa.MakeClosure:
+						callee, _ = ins.Fn.(*ssa.Function)
+					}
+					if callee == sf || reach(callee) {
+						return true
+					}
+				}
+			}
+			return false
+		}
+		reentrant := reach(sf)
+		// the function that formats the root node is re-entrant only on paper (the dispatcher has a case for *Program): a
+		// Program never occurs inside a Program
+		rootOnly := false
+		for _, par := range sf.Params {
+			if pt, ok := par.Type().(*types.Pointer); ok {
+				if n := namedOf(pt.Elem()); n != nil && n.Obj().Name() == "Program" && n.Obj().Pkg() == pkg.Types {
+					rootOnly = true
+				}
+			}
+		}
+		for _, name := range names {
+			if reentrant && rootOnly {
+				stateStores++
+				r.Ok(fd.QName()+"#state-restored:"+name, p.Rel(instrPos(byField[name][0])), "writes formatter state "+name+" while formatting the root node: a Program is never nested in a Program, there is no outer activation")
+				continue
+			}
+			stateStores++
+			construct := fd.QName() + "#state-restored:" + name
+			if !reentrant {
+				r.Ok(construct, p.Rel(instrPos(byField[name][0])), "writes formatter state "+name+" but cannot re-enter itself: there is no outer activation to disturb")
+				continue
+			}
+			// restoring stores: the value is the field's own content, loaded before any store to it
+			var restores, others []*ssa.Store
+			for _, st := range byField[name] {
+				isRestore := false
+				if ld, ok := st.Val.(*ssa.UnOp); ok && ld.Op == token.MUL {
+					if lfa, ok := ld.X.(*ssa.FieldAddr); ok {
+						if _, ln := fieldAddrInfo(lfa); ln == name {
+							isRestore = true
+							for _, o := range byField[name] {
+								if o != st && !instrDominates(ld, o) {
+									isRestore = false
+								}
+							}
+						}
+					}
+				}
+				if isRestore {
+					restores = append(restores, st)
+				} else {
+					others = append(others, st)
+				}
+			}
+			var restoreBlocks []*ssa.BasicBlock
+			for _, st := range restores {
+				restoreBlocks = append(restoreBlocks, st.Block())
+			}
+			okR := len(restores) > 0
+			for _, st := range others {
+				if anyReturnPathAvoiding(st.Block(), restoreBlocks) {
+					okR = false
+				}
+				for _, rs := range restores {
+					if rs.Block() == st.Block() && instrDominates(rs, st) && anyReturnPathAvoiding(st.Block(), nil) {
+						// written again after the restore in the same block, and the block leads to a return
+						okR = false
+					}
+				}
+			}
+			if !okR && hasDefer {
+				r.Undecided("%s writes formatter state %s and defers calls: the restore may be deferred, which this clause does not follow", fd.QName(), name)
+				continue
+			}
+			r.Check(okR, construct, p.Rel(instrPos(byField[name][0])), "the value of "+name+" found on entry is put back on every path to return",
+				fmt.Sprintf("%s can re-enter itself through the formatter and writes the formatter state %s without putting back the value it found on every path to return: the state of the nested list is what the enclosing list continues with (blank-line and layout decisions after the nested block depend on the block's contents; formatting is no longer idempotent)", fd.Name(), name))
+		}
+	}
+	if stateStores == 0 {
+		r.Note("no formatter state besides indentLevel is written by any function (state-restored clause has no instance on this tree)")
+	}
 	// indent unit
 	if obj, ok := pkg.Types.Scope().Lookup("indentStr").(*types.Const); ok {
 		r.Check(constant.StringVal(obj.Val()) == "    ", "pkg/parser.indentStr", p.Rel(obj.Pos()), "the indentation unit is four spaces", "indentStr is not four spaces")
